@@ -13,7 +13,7 @@ func init() {
 	register("P-STMTRENDER", "Statement.render: items that are nil or null are skipped without output; every other item is rendered, preceded by a single space iff an item was rendered before; no list position is treated specially", 3, rulePXStmtRender)
 	register("P-RENDERITEMS", "Group.renderItems: nil / null items are skipped without output or separator; package tokens are registered before the null test; every other item is preceded by the separator iff an item was rendered before and the separator is non-empty, by a newline iff the group is multi; a Dict next to other Values items is an error; the result tells whether nothing was rendered", 5, rulePXRenderItems)
 	register("P-GROUPRENDER", "Group.render: open, items, trailing newline, close are written in that order, each exactly under its condition; the brace-less form is chosen exactly for a block after a case group or the default keyword; empty type lists render nothing", 14, rulePXGroupRender)
-	register("P-ISNULL", "null-ness: nil receivers are null, groups with delimiters are not, otherwise the conjunction over the items; Null() is a null token, Empty() an empty operator token; a package token is null exactly for dot-imported or local paths", 12, ruleIsNull)
+	register("P-ISNULL", "null-ness: nil receivers are null, groups with delimiters are not, otherwise the conjunction over the items; Null() is a null token, Empty() an empty operator token; a package token is null exactly for dot-imported or local paths", 12, rulePXIsNull)
 }
 
 // loopInfo describes a list-rendering loop.
